@@ -79,6 +79,11 @@ def _m(p, n, env):
             for a, b in zip(p[:-1], n[:len(p) - 1]):
                 if not _m(a, b, env):
                     return False
+            rest = n[len(p) - 1:]
+            if len(rest) == 1 and isinstance(rest[0], ast.Starred):
+                return _m(p[-1].value, rest[0].value, env)
+            if p[-1].value.id != "MV__" and p[-1].value.id not in env:
+                env[p[-1].value.id] = ast.Tuple(elts=list(rest), ctx=ast.Load())
             return True
         if p and isinstance(p[-1], ast.keyword) and p[-1].arg is None and isinstance(p[-1].value, ast.Name) \
                 and is_mv(p[-1].value.id):
